@@ -16,8 +16,8 @@ theorem C04_table (cfg : Cfg) (ms : List Meth) (hd : DistinctHandlers ms)
     (((MMap.fresh ms).runLookups cfg hist).lookup cfg ck).2 = ((MMap.fresh ms).lookup cfg ck).2 := by
   have ok := plan_ok cfg ms hd.ids hd.codes
   have h0 := MMap.fresh_inv cfg ms
-  have h1 := (MMap.runLookups_inv cfg ms _ ok hist _ h0).1
-  rw [(MMap.lookup_spec cfg ms _ ok _ h1 ck).1, (MMap.lookup_spec cfg ms _ ok _ h0 ck).1]
+  have h1 := (MMap.runLookups_inv cfg ms ok hist _ h0).1
+  rw [(MMap.lookup_spec cfg ms ok _ h1 ck).1, (MMap.lookup_spec cfg ms ok _ h0 ck).1]
 
 /-- function level: for a fixed set of registered methods, the outcome of a call and the sequence of method
     bodies it enters (with the argument objects each receives) are the same whether it is the first call ever
@@ -33,7 +33,7 @@ theorem C04_fn (cfg : Cfg) (ds : List (Def × Int)) (hd : DistinctHandlers (Fn.m
   | ok ana =>
     obtain ⟨fnH, hH, hcall⟩ := Fn.runCalls_fresh_ok cfg ds ana ok ha hist
     rw [hcall c, Fn.call_fresh_ok cfg ds ana ha c]
-    have r := call_rel cfg ds ana _ ok fnH (Fn.built ds ana) hH (Fn.built_inv cfg ds ana) c
+    have r := call_rel cfg ds ana ok fnH (Fn.built ds ana) hH (Fn.built_inv cfg ds ana) c
     exact ⟨r.outcome, r.trace⟩
 
 end Ovld
